@@ -76,7 +76,7 @@ def invariance_case(case, ctx):
     def same(Ab, Rb, rows, what):
         require(torch.equal(Rb, R0[rows]), "references-differ-" + what, lambda: "%s: %s" % (desc, what))
         require(tuple(Ab.shape) == tuple(A0[rows].shape), "shape-differs-" + what, lambda: "%s vs %s" % (tuple(Ab.shape), tuple(A0[rows].shape)))
-        if not torch.allclose(Ab, A0[rows], rtol=1e-9, atol=1e-12):
+        if not torch.allclose(Ab.double(), A0[rows].double(), rtol=1e-9, atol=1e-12):
             d = (Ab - A0[rows]).abs()
             ex = int(d.reshape(len(rows), -1).max(dim=1).values.argmax())
             raise Violation("attributions-differ-" + what, "%s: %s: example %d differs by %.3g" % (desc, what, rows[ex], d.max().item()))
